@@ -376,6 +376,15 @@ class CursorAnalysis(object):
                 rr = peel(rhs, explicit=False)
                 maynull = rr is not None and rr.get('kind') == 'CallExpr' and callee(rr) and callee(rr)[0] == 'fn' and \
                     callee(rr)[1].get('name') in ('strchr', 'strrchr', 'memchr', 'strpbrk', 'strstr')
+                if not maynull and rr is not None and rr.get('kind') == 'CallExpr' and callee(rr) and callee(rr)[0] == 'fn' and \
+                        callee(rr)[1].get('_qn'):
+                    # a file-local scanner that hands back the cursor or nullptr (some return of it is the null literal)
+                    try:
+                        summ = self.ctx._helper_summary(callee(rr)[1])
+                    except Exception:
+                        summ = None
+                    if summ is not None and any(v == 'null' for (_, v) in summ[1]):
+                        maynull = True
                 a2.mn = (a2.mn - {cid}) | ({cid} if maynull else frozenset())
             elif cid in a2.mn:
                 self.oblige(node, 'use of %s' % self.cursors[cid].get('name'), False, 'arithmetic on a pointer that may be null')
@@ -706,6 +715,24 @@ class CursorAnalysis(object):
             outs = []
             for s in self.effects(a, alt):
                 outs += self.effects(b, s)
+            # (p = scan(..)) != nullptr : the null test of a cursor assigned in the very condition
+            tested_ = None
+            for (p_, q_) in ((a, b), (b, a)):
+                pq = peel(q_)
+                pp = peel(p_)
+                if pq is not None and pq.get('kind') in ('CXXNullPtrLiteralExpr', 'GNUNullExpr') and pp is not None and \
+                        pp.get('kind') == 'BinaryOperator' and pp.get('opcode') == '=':
+                    lp_ = self.ptr(kids(pp)[0])
+                    if lp_ is not None and lp_[1] == 0:
+                        tested_ = lp_[0]
+            if tested_ is not None:
+                res = []
+                for s in outs:
+                    if tested_ in s.mn and not eq:
+                        s = s.copy()
+                        s.mn = s.mn - {tested_}
+                    res.append(s)
+                return self._cap(res)
             res = []
             for s in outs:
                 ca, cb = self.char_of(a, s), self.char_of(b, s)
